@@ -16,6 +16,12 @@ equally and o1 is right-associative).
  R2  prefix operators: unary minus must absorb ``**``; ``.not.`` must absorb
      comparisons.
  R3  lexer: every Fortran operator spelling has a token of the right kind.
+ R7  a component reference binds tighter than every operator: the right-hand
+     side of ``%`` is parsed with a minimum precedence that admits no binary
+     operator (``x%a*b`` is ``(x%a)*b``) but still the subscript / argument list.
+ R8  token patterns are local: no lexer pattern of the loki table is anchored
+     at the end of the input, and a quoted-literal pattern cannot match across
+     its closing quote (regex ASTs: no unbounded ``.`` between the delimiters).
  R4  literal text is not rewritten in a meaning-changing way (``d`` exponent).
  R5  operand coverage of the pymbolic -> Loki conversion: every ``map_<k>`` that
      PymbolicMapper defines for a pymbolic primitive reads every constructor
@@ -187,6 +193,32 @@ def run(ctx):
             else:
                 ctx.judge('R1', inst, facts={**facts, 'total_fixup': True})
 
+    # ---- R7 component references
+    ctx.rule('R7', 'the right-hand side of a component reference `%` absorbs no binary operator (g(o) <= r(%) for every o) but keeps '
+                   'its subscripts / argument list (g(call) > r(%))')
+    comp = [b for b in _branches(m, own) if b['token'] == '_f_derived_type']
+    if len(comp) != 1 or comp[0]['r'] in (None, NOFOLD):
+        raise AnalysisError('parse_postfix: branch of the component-reference token `%` not found')
+    rc = comp[0]['r']
+    wc = f'{own.module.relpath}:{comp[0]["line"]}'
+    for o in BINARY:
+        b = table[o]
+        absorbs = b['g'] > rc if b['strict'] else b['g'] >= rc
+        inst = f'% then {o}'
+        if absorbs:
+            ex = EXAMPLE[o].replace('a', 'x%a', 1)
+            ctx.violation('R7', inst, wc,
+                          f'`{ex}`: the right-hand side of % is parsed with min precedence {rc} < g({o})={b["g"]}, so it swallows the '
+                          f'operator: x%a{o if o != "cmp" else "<"}b is read as x%(a{o if o != "cmp" else "<"}b) and mapped to '
+                          f'x%a {o if o != "cmp" else "<"} x%b', facts={'r(%)': rc, f'g({o})': b['g']})
+        else:
+            ctx.judge('R7', inst, facts={'r(%)': rc, f'g({o})': b['g']})
+    callb = [b for b in _branches(m, base) if b['token'] == '_openpar']
+    if callb:
+        gcall = callb[0]['g']
+        (ctx.judge('R7', '% keeps subscripts', facts={'g(call)': gcall, 'r(%)': rc}) if gcall > rc else
+         ctx.violation('R7', '% then (', wc, f'`x%a(i)`: the subscript list is not attached to the component (g(call)={gcall} <= r(%)={rc})'))
+
     # ---- R2 prefix operators
     pp_own = m.get_function(FILE, 'ExpressionParser.parse_prefix')
     pp_base = basecls[0].function('parse_prefix')
@@ -288,6 +320,65 @@ def run(ctx):
         else:
             ctx.violation('R3', f'lex:{sp}', P.where,
                           f'Fortran operator {sp} is lexed as token {hit!r} (different meaning)', facts=facts)
+
+    # ---- R8 token patterns are local
+    import re._parser as sre        # regex ASTs (CPython)
+    ctx.rule('R8', 'lexer patterns of ExpressionParser: no end-of-input anchor; a quoted-literal pattern cannot run across its closing quote '
+                   '(no `.`-repetition between the delimiters)')
+    own_tab, _ = m.class_attr(P, 'lex_table')
+    own_entries = []
+    for e in ast.walk(own_tab):
+        if isinstance(e, ast.Tuple) and len(e.elts) == 2 and not isinstance(e.elts[0], ast.Constant):
+            for c in ast.walk(e.elts[1]):
+                if isinstance(c, ast.Call) and (dotted(c.func) or '').endswith('RE') and c.args and isinstance(c.args[0], ast.Constant):
+                    own_entries.append(((dotted(e.elts[0]) or ast.unparse(e.elts[0])).split('.')[-1], c.args[0].value, c.lineno))
+    ctx.floor('R8', 'patterns of the loki lexer table', len(own_entries), 15)
+
+    def walk_re(items):
+        for op, av in items:
+            yield op, av
+            if op in (sre.MAX_REPEAT, sre.MIN_REPEAT, sre.POSSESSIVE_REPEAT):
+                yield from walk_re(av[2])
+            elif op is sre.SUBPATTERN:
+                yield from walk_re(av[3])
+            elif op is sre.BRANCH:
+                for alt in av[1]:
+                    yield from walk_re(alt)
+            elif op in (sre.ASSERT, sre.ASSERT_NOT):
+                yield from walk_re(av[1])
+    for tag, pat, line in own_entries:
+        try:
+            tree = sre.parse(pat)
+        except re.error as exc:
+            raise AnalysisError(f'lexer pattern {pat!r} does not parse: {exc}')
+        where_ = f'{FILE}:{line}'
+        inst = f'lex-pattern:{tag}:{pat}'
+        anchors = [av for op, av in walk_re(tree) if op is sre.AT and av in (sre.AT_END, sre.AT_END_STRING, sre.AT_END_LINE)]
+        if anchors:
+            ctx.violation('R8', f'lex-pattern:{tag}:end-anchor', where_,
+                          f'the pattern {pat!r} of token {tag} is anchored at the end of the input: the token is only recognised as the last '
+                          f'thing in an expression (2.0_jprb*y cannot be lexed, x + 2.0_jprb can)', instance=inst)
+            continue
+        items = list(tree)
+        quoted = len(items) >= 2 and items[0][0] is sre.LITERAL and items[-1][0] is sre.LITERAL and items[0][1] == items[-1][1] \
+            and chr(items[0][1]) in '\'"'
+        if quoted:
+            q = items[0][1]
+            greedy = False
+            for op, av in walk_re(items[1:-1]):
+                if op in (sre.MAX_REPEAT, sre.MIN_REPEAT) and av[1] is sre.MAXREPEAT:
+                    for op2, av2 in av[2]:
+                        if op2 is sre.ANY:
+                            greedy = True
+                        if op2 is sre.IN and not any(o is sre.NEGATE for o, _ in av2):
+                            if any((o is sre.LITERAL and v == q) or o is sre.CATEGORY for o, v in av2):
+                                greedy = True
+            if greedy:
+                ctx.violation('R8', f'lex-pattern:{tag}:runs-across-quote', where_,
+                              f'the string pattern {pat!r} lets `.` run across closing quotes: everything from the first to the last quote of '
+                              f"the expression is one literal -- c == 'a' .or. c == 'b' is lexed as a single string", instance=inst)
+                continue
+        ctx.judge('R8', inst, nontrivial=quoted)
 
     # ---- R5 operand coverage of PymbolicMapper
     ctx.rule('R5', 'for every pymbolic primitive K whose mapper_method is defined by PymbolicMapper: each name in K.init_arg_names is '
@@ -409,6 +500,11 @@ def run(ctx):
 
 
 MUTANTS = [
+    Mutant('greedy-string-pattern', FILE, '''pytools.lex.RE(r"\\'(?:[^\\']|\\'\\')*\\'", re.IGNORECASE)''', '''pytools.lex.RE(r"\\'.*\\'", re.IGNORECASE)''',
+           expect=('R8', 'runs-across-quote')),
+    Mutant('float-pattern-end-anchor', FILE, '(_([\\w$]+|[0-9]+))+", re.IGNORECASE)', '(_([\\w$]+|[0-9]+))+$", re.IGNORECASE)', expect=('R8', 'end-anchor')),
+    Mutant('component-swallows-operators', FILE, "            right_exp = self.parse_expression(pstate, _PREC_UNARY)", "            right_exp = self.parse_expression(pstate, _PREC_PLUS)",
+           expect=('R7', '% then *')),
     Mutant('float-exponent-rewritten', FILE, "        return sym.FloatLiteral(value=s)\n", "        return sym.FloatLiteral(value=s.replace('d', 'e').replace('D', 'e'))\n",
            expect=('R4', 'd-exponent')),
     Mutant('times-guard-nonstrict', FILE, "pstate.is_next(_times) and _PREC_TIMES > min_precedence", "pstate.is_next(_times) and _PREC_TIMES >= min_precedence",
